@@ -1317,6 +1317,16 @@ def eNormDoc (doc : EDoc) : EDoc :=
   | some e => (kUid, e) :: dpop kUid doc
   | none => doc
 
+/-- some document of the collection has this "_id" (`insert_one` then raises `DuplicateKeyError`) -/
+def hasUid (e : EVal) (docs : List EDoc) : Bool :=
+  docs.any (fun d => match dget kUid d with | some e' => deq e' e | none => false)
+
+/-- `_id_from_db(inserted_id)` -/
+def idOfE (e : EVal) : Str :=
+  match eToJ e with
+  | .str i => i
+  | _ => []
+
 abbrev MState := List (Str × List EDoc)
 
 /-- One operation of the Mongo driver over the engine spec. `gen` are the bytes of the ObjectId the engine
@@ -1332,8 +1342,8 @@ def step (fx : Fix) (s : MState) (gen : List Nat) : Op → MState × Res
         | none => (kUid, EVal.oid gen) :: doc
       match dget kUid doc' with
       | some e =>
-        if docs.any (fun d => match dget kUid d with | some e' => deq e' e | none => false) then (s, .err .dup)
-        else (aset coll (docs ++ [doc']) s, .id (match eToJ e with | .str i => i | _ => []))
+        if hasUid e docs then (s, .err .dup)
+        else (aset coll (docs ++ [doc']) s, .id (idOfE e))
       | none => (s, .err .badId)
   | .update coll part filt =>
     let docs : List EDoc := aget [] coll s
